@@ -4,6 +4,12 @@
    os.Remove, net.Listen, deferred Shutdown + os.Remove), :86-99 (Shutdown), net.UnixListener.close (unlink, then close),
    internal/client/client.go:169-179 (probe = GET /status over the socket; a refused connection means "not running").
    Every start / retry of the file is a process running `program`; any number of processes interleave.
+   Repaired protocol (fix a924e5c): the probe, the history open, the unlink and the bind are done under an exclusive
+   advisory lock (flock LOCK_EX on the DAG definition file, agent.go lockSocket); the lock is released when the socket
+   listens, or when the run is refused / fails; Serve no longer removes the path a second time after the shutdown.
+   flock is a modelled primitive: at most one holder, a Lock action is enabled only while nobody holds it, released by
+   Unlock (close of the descriptor).  A DAG whose definition file cannot be opened is NOT locked by the code
+   (lockSocket returns a no-op); every start / retry of the command line loads that file, so the model locks always.
    Executable definitions only - the proofs are in Proofs.v. *)
 From Coq Require Import List Bool Arith.
 Import ListNotations.
@@ -11,35 +17,37 @@ Import ListNotations.
 Inductive act :=
 | BuildGraph   (* setup (agent.go:99)                                                          *)
 | EvalPre      (* checkPreconditions (:104)                                                    *)
+| Lock         (* lockSocket: flock(LOCK_EX) on the DAG definition file - blocks while another holds it *)
 | Probe        (* checkIsAlreadyRunning (:114): connect + GET /status                          *)
 | RemoveOld    (* setupDatabase: retention (:449)                                              *)
 | OpenHist     (* historyStore.Open (:453): the run is recorded from here on                   *)
 | WriteS0      (* first status (:130)                                                          *)
 | UnlinkSock   (* Serve: os.Remove(addr) - removes the path WHOEVER bound it (server.go:49)    *)
 | Bind         (* net.Listen("unix", addr) (server.go:50): fails if the path exists            *)
+| Unlock       (* the socket listens: unlock() - close of the locked descriptor                *)
 | Steps        (* Schedule: the steps (:190)                                                   *)
 | Handlers     (* Schedule: the lifecycle handlers                                             *)
 | WriteFinal   (* final status (:195)                                                          *)
 | ShutUnlink   (* deferred Shutdown -> UnixListener.close: unlink(path) - whoever's file it is *)
 | ShutClose    (* ... then close(fd): the endpoint stops answering                             *)
-| CloseHist    (* deferred historyStore.Close (:124-128)                                       *)
-| LateUnlink.  (* Serve's deferred os.Remove(addr) (server.go:61), racing with process exit    *)
+| CloseHist.   (* deferred historyStore.Close                                                  *)
 
 Definition program : list act :=
-  [BuildGraph; EvalPre; Probe; RemoveOld; OpenHist; WriteS0; UnlinkSock; Bind; Steps; Handlers; WriteFinal;
-   ShutUnlink; ShutClose; CloseHist; LateUnlink].
+  [BuildGraph; EvalPre; Lock; Probe; RemoveOld; OpenHist; WriteS0; UnlinkSock; Bind; Unlock; Steps; Handlers; WriteFinal;
+   ShutUnlink; ShutClose; CloseHist].
 
 (* program counters of interest *)
-Definition pcProbe := 2.
-Definition pcOpen := 4.
-Definition pcUnlink := 6.
-Definition pcBind := 7.
-Definition pcSteps := 8.
-Definition pcShutUnlink := 11.
-Definition pcShutClose := 12.
-Definition pcCloseHist := 13.
-Definition pcLate := 14.
-Definition pcEnd := 15.
+Definition pcLock := 2.
+Definition pcProbe := 3.
+Definition pcOpen := 5.
+Definition pcUnlink := 7.
+Definition pcBind := 8.
+Definition pcUnlock := 9.
+Definition pcSteps := 10.
+Definition pcShutUnlink := 13.
+Definition pcShutClose := 14.
+Definition pcCloseHist := 15.
+Definition pcEnd := 16.
 
 (* what is at the socket path *)
 Inductive sockst :=
@@ -50,6 +58,7 @@ Inductive sockst :=
 Record proc := { pc : nat; refused : bool; bindfail : bool }.
 
 Record world := {
+  lock : option nat;             (* holder of the flock on the DAG definition file *)
   sock : sockst;
   listening : nat -> bool;       (* p holds an open listener *)
   hist : list nat;               (* runs recorded in the history, by process, in order *)
@@ -58,23 +67,25 @@ Record world := {
 
 Definition proc0 : proc := {| pc := 0; refused := false; bindfail := false |}.
 Definition init (s0 : sockst) : world :=
-  {| sock := s0; listening := fun _ => false; hist := []; execd := []; procs := fun _ => proc0 |}.
+  {| lock := None; sock := s0; listening := fun _ => false; hist := []; execd := []; procs := fun _ => proc0 |}.
 
 Definition upd {A} (f : nat -> A) (p : nat) (v : A) : nat -> A := fun q => if q =? p then v else f q.
 
 Definition set_proc (w : world) (p : nat) (s : proc) : world :=
-  {| sock := sock w; listening := listening w; hist := hist w; execd := execd w; procs := upd (procs w) p s |}.
+  {| lock := lock w; sock := sock w; listening := listening w; hist := hist w; execd := execd w; procs := upd (procs w) p s |}.
 Definition set_pc (w : world) (p n : nat) : world :=
   set_proc w p {| pc := n; refused := refused (procs w p); bindfail := bindfail (procs w p) |}.
 Definition adv (w : world) (p : nat) : world := set_pc w p (S (pc (procs w p))).
 Definition set_sock (w : world) (s : sockst) : world :=
-  {| sock := s; listening := listening w; hist := hist w; execd := execd w; procs := procs w |}.
+  {| lock := lock w; sock := s; listening := listening w; hist := hist w; execd := execd w; procs := procs w |}.
 Definition set_listening (w : world) (p : nat) (b : bool) : world :=
-  {| sock := sock w; listening := upd (listening w) p b; hist := hist w; execd := execd w; procs := procs w |}.
+  {| lock := lock w; sock := sock w; listening := upd (listening w) p b; hist := hist w; execd := execd w; procs := procs w |}.
 Definition add_hist (w : world) (p : nat) : world :=
-  {| sock := sock w; listening := listening w; hist := hist w ++ [p]; execd := execd w; procs := procs w |}.
+  {| lock := lock w; sock := sock w; listening := listening w; hist := hist w ++ [p]; execd := execd w; procs := procs w |}.
 Definition add_exec (w : world) (p : nat) : world :=
-  {| sock := sock w; listening := listening w; hist := hist w; execd := execd w ++ [p]; procs := procs w |}.
+  {| lock := lock w; sock := sock w; listening := listening w; hist := hist w; execd := execd w ++ [p]; procs := procs w |}.
+Definition set_lock (w : world) (l : option nat) : world :=
+  {| lock := l; sock := sock w; listening := listening w; hist := hist w; execd := execd w; procs := procs w |}.
 
 (* does the probe get a "running" answer?  Only a bound socket whose owner still listens answers *)
 Definition answering (w : world) : bool :=
@@ -83,36 +94,43 @@ Definition answering (w : world) : bool :=
 Definition cur (w : world) (p : nat) : option act := nth_error program (pc (procs w p)).
 
 Inductive label :=
-| Do (p : nat)      (* p performs its next action *)
-| Exit (p : nat).   (* p's process exits before the late unlink is executed *)
+| Do (p : nat).     (* p performs its next action *)
 
+(* None = the label is not enabled (the process has ended, or it waits for the lock) *)
 Definition step (l : label) (w : world) : option world :=
   match l with
-  | Exit p => match cur w p with Some LateUnlink => Some (set_pc w p pcEnd) | _ => None end
   | Do p =>
       match cur w p with
       | None => None
       | Some a =>
           match a with
           | BuildGraph | EvalPre | RemoveOld | WriteS0 | Handlers | WriteFinal => Some (adv w p)
+          | Lock => match lock w with
+                    | None => Some (adv (set_lock w (Some p)) p)
+                    | Some _ => None                      (* flock blocks *)
+                    end
           | Probe =>
               if answering w
-              then Some (set_proc w p {| pc := pcEnd; refused := true; bindfail := false |})   (* errDAGIsAlreadyRunning *)
+              then (* errDAGIsAlreadyRunning: Run returns, the deferred unlock releases the lock *)
+                   Some (set_proc (set_lock w None) p {| pc := pcEnd; refused := true; bindfail := false |})
               else Some (adv w p)
           | OpenHist => Some (adv (add_hist w p) p)
-          | UnlinkSock | ShutUnlink | LateUnlink => Some (adv (set_sock w Absent) p)
+          | UnlinkSock | ShutUnlink => Some (adv (set_sock w Absent) p)
           | Bind =>
               match sock w with
               | Absent => Some (adv (set_listening (set_sock w (Bound p)) p true) p)
-              | _ => (* errFailedSetupUnixSocket: only the deferred history Close remains *)
+              | _ => (* errFailedSetupUnixSocket: the deferred history Close and unlock remain *)
                      Some (set_proc w p {| pc := pcCloseHist; refused := false; bindfail := true |})
               end
+          | Unlock => Some (adv (set_lock w None) p)
           | Steps => Some (adv (add_exec w p) p)
           | ShutClose => Some (adv (set_listening w p false) p)
-          | CloseHist => if bindfail (procs w p) then Some (set_pc w p pcEnd) else Some (adv w p)
+          | CloseHist => if bindfail (procs w p) then Some (set_pc (set_lock w None) p pcEnd) else Some (adv w p)
           end
       end
   end.
+
+Definition label_pid (l : label) : nat := match l with Do p => p end.
 
 Fixpoint run (sched : list label) (w : world) : option world :=
   match sched with
@@ -121,33 +139,12 @@ Fixpoint run (sched : list label) (w : world) : option world :=
   end.
 
 (* ---- state predicates ---- *)
-(* p passed its probe and has not terminated *)
-Definition busy (s : proc) : bool := (3 <=? pc s) && (pc s <=? 14).
-(* p's steps or handlers may be running: bound, not yet shutting down *)
+(* p holds the lock: between its Lock and its Unlock (or its refusal / failure) *)
+Definition in_section (s : proc) : bool := (pcProbe <=? pc s) && (pc s <=? pcUnlock).
+(* p is past its probe-and-bind section, un-refused, and has not yet removed its socket: it owns the socket path *)
+Definition owner (s : proc) : bool := (pcUnlock <=? pc s) && (pc s <=? pcShutUnlink) && negb (bindfail s).
+(* p's steps or handlers may be running *)
 Definition active (s : proc) : bool := (pcSteps <=? pc s) && (pc s <=? pcShutUnlink) && negb (bindfail s).
-(* the dangerous phases for somebody else's probe: probed but not yet bound; shutting down with unlinks pending *)
-Definition in_danger (s : proc) : bool :=
-  ((3 <=? pc s) && (pc s <=? pcBind)) || ((pcShutClose <=? pc s) && (pc s <=? pcLate)).
-
-(* the guarded semantics of the _partial theorem: among the processes 0..n-1, no Probe is taken while another process
-   is in a dangerous phase *)
-Definition others_in_danger (n : nat) (w : world) (p : nat) : bool :=
-  existsb (fun r => negb (r =? p) && in_danger (procs w r)) (seq 0 n).
-
-Definition label_pid (l : label) : nat := match l with Do p | Exit p => p end.
-
-Definition gstep (n : nat) (l : label) (w : world) : option world :=
-  if negb (label_pid l <? n) then None
-  else match l, cur w (label_pid l) with
-       | Do p, Some Probe => if others_in_danger n w p then None else step l w
-       | _, _ => step l w
-       end.
-
-Fixpoint grun (n : nat) (sched : list label) (w : world) : option world :=
-  match sched with
-  | [] => Some w
-  | l :: r => match gstep n l w with Some w' => grun n r w' | None => None end
-  end.
 
 (* ---- what the replay on the real binaries compares ---- *)
 (* per process: 0 still running, 1 finished normally, 2 refused ("already running"), 3 failed to bind;
